@@ -36,6 +36,7 @@ type CutRec struct {
 	Ev    string   `json:"ev"`
 	ID    int      `json:"id"`
 	Judge string   `json:"judge"`
+	Log bool `json:"log"` // a Logger is configured (SMF.Logger for writes, smf.Log for reads): must not change any result
 	Bytes hx.B     `json:"bytes"`
 	Base  R        `json:"base"`
 	Cuts  []Cut    `json:"cuts"`
@@ -126,6 +127,7 @@ type SchedRec struct {
 	Ev    string     `json:"ev"`
 	ID    int        `json:"id"`
 	Judge string     `json:"judge"`
+	Log bool `json:"log"` // a Logger is configured (SMF.Logger for writes, smf.Log for reads): must not change any result
 	Bytes hx.B       `json:"bytes"` // the complete valid file
 	Cut   int        `json:"cut"`   // -1: whole file; else only the first Cut bytes are delivered
 	Base  R          `json:"base"`  // bytes.Reader baseline on the delivered bytes
@@ -257,6 +259,38 @@ func runSched(rec *SchedRec) {
 	}
 	n, _ := json.Marshal(nsplit)
 	rec.Runs = append(rec.Runs, SchedRun{Sched: "allsplits:" + string(n), Same: bad == 0, Val: noneR()})
+	// truncated files: every prefix of the file (strided beyond 400 bytes) from memory vs. one byte per call vs. the last
+	// bytes together with EOF -- where the file ends (inside a payload, right before it, inside a length) must not matter
+	if rec.Cut < 0 {
+		step, bad, ncut := 1, 0, 0
+		if len(data) > 400 {
+			step = len(data) / 200
+		}
+		for k := 1; k < len(data); k += step {
+			if atomic.LoadInt32(&hungReads) > 0 {
+				break
+			}
+			base, _, _ := readBytes(data[:k])
+			ncut++
+			for _, alt := range []struct {
+				name string
+				rd   io.Reader
+			}{{"onebyte", iotest.OneByteReader(bytes.NewReader(data[:k]))}, {"dataerr", iotest.DataErrReader(bytes.NewReader(data[:k]))},
+				{"alt3", &fragReader{data: data[:k], sizes: []int{3}}}} {
+				v, _, _ := readFrom(alt.rd)
+				if !sameResult(v, base) {
+					bad++
+					if bad <= 3 {
+						kk, _ := json.Marshal(k)
+						v.Msg = "from memory: " + base.Kind + " (" + base.Msg + "); " + alt.name + ": " + v.Msg
+						rec.Runs = append(rec.Runs, SchedRun{Sched: "cut@" + string(kk) + "/" + alt.name, Same: false, Val: v})
+					}
+				}
+			}
+		}
+		n, _ := json.Marshal(ncut)
+		rec.Runs = append(rec.Runs, SchedRun{Sched: "allcuts:" + string(n), Same: bad == 0, Val: noneR()})
+	}
 }
 
 // ---- C10: I/O faults ------------------------------------------------------------------------------------
@@ -264,7 +298,8 @@ func runSched(rec *SchedRec) {
 var errFault = errors.New("injected I/O fault")
 
 // budgetWriter accepts exactly `budget` bytes (mode "once": fails exactly one write, then recovers).  mode "short": the write that crosses the budget stores what fits
-// and returns (n < len(p), error); mode "next": it stores nothing of that write and returns (0, error).
+// and returns (n < len(p), error); mode "next": it stores nothing of that write and returns (0, error); "shortwrite" / "eof": as "short" / "next" with
+// io.ErrShortWrite / io.EOF as the error value.
 type budgetWriter struct {
 	budget int
 	mode   string
@@ -272,9 +307,20 @@ type budgetWriter struct {
 	failed bool
 }
 
+// the error value the destination fails with: the verdict must not depend on its identity
+func (w *budgetWriter) err() error {
+	switch w.mode {
+	case "shortwrite": // a full pipe / quota: short count with io.ErrShortWrite, then nothing
+		return io.ErrShortWrite
+	case "eof":
+		return io.EOF
+	}
+	return errFault
+}
+
 func (w *budgetWriter) Write(p []byte) (int, error) {
 	if w.failed && w.mode != "once" {
-		return 0, errFault
+		return 0, w.err()
 	}
 	if w.failed { // mode "once": a transient fault, the destination accepts everything again afterwards
 		w.got += len(p)
@@ -285,12 +331,12 @@ func (w *budgetWriter) Write(p []byte) (int, error) {
 		return len(p), nil
 	}
 	w.failed = true
-	if w.mode == "short" {
+	if w.mode == "short" || w.mode == "shortwrite" {
 		n := w.budget - w.got
 		w.got += n
-		return n, errFault
+		return n, w.err()
 	}
-	return 0, errFault
+	return 0, w.err()
 }
 
 type WFault struct {
@@ -306,6 +352,7 @@ type WFaultRec struct {
 	Ev     string   `json:"ev"`
 	ID     int      `json:"id"`
 	Judge  string   `json:"judge"`
+	Log bool `json:"log"` // a Logger is configured (SMF.Logger for writes, smf.Log for reads): must not change any result
 	Hist   []Op     `json:"hist"`
 	Total  int      `json:"total"` // bytes of the unfaulted output
 	OkErr  bool     `json:"okerr"` // the unfaulted write returned an error
@@ -331,7 +378,7 @@ func runWFault(rec *WFaultRec) {
 		}
 	}
 	for _, k := range ks {
-		for _, mode := range []string{"short", "next", "once"} {
+		for _, mode := range []string{"short", "next", "once", "shortwrite", "eof"} {
 			w := &budgetWriter{budget: k, mode: mode}
 			f := WFault{K: k, Mode: mode}
 			f.Pan = hx.Catch(func() {
@@ -380,6 +427,7 @@ type RFaultRec struct {
 	Ev     string   `json:"ev"`
 	ID     int      `json:"id"`
 	Judge  string   `json:"judge"`
+	Log bool `json:"log"` // a Logger is configured (SMF.Logger for writes, smf.Log for reads): must not change any result
 	Bytes  hx.B     `json:"bytes"`
 	Base   R        `json:"base"`
 	Faults []RFault `json:"faults"`
@@ -443,6 +491,8 @@ func cmdSmfGen(args []string) {
 		switch *mode {
 		case "wr":
 			rec := &WrRec{ID: i, Judge: *judge, Hist: genHistory(r, *fulld, !*big || i%4 != 0, feat)}
+			rec.Log = r.Intn(3) == 0
+			useLog = rec.Log
 			runWr(rec)
 			rec.Feat = featList(feat)
 			w.Put(rec)
@@ -450,11 +500,15 @@ func cmdSmfGen(args []string) {
 			i = *n
 		case "rd":
 			rec := &RdRec{ID: i, Judge: *judge, Bytes: genValidFile(r, *big && i%4 == 0, feat)}
+			rec.Log = r.Intn(3) == 0
+			useLog = rec.Log
 			runRd(rec)
 			rec.Feat = featList(feat)
 			w.Put(rec)
 		case "cut":
 			rec := &CutRec{ID: i, Judge: *judge, Bytes: validFile(r, *big && i%8 == 0, feat)}
+			rec.Log = r.Intn(3) == 0
+			useLog = rec.Log
 			runCut(rec)
 			rec.Feat = featList(feat)
 			w.Put(rec)
@@ -487,6 +541,7 @@ func cmdSmfGen(args []string) {
 				}
 				rec.Bytes, rec.Src = b, "mutated"
 			}
+			useLog = false
 			runAny(rec)
 			w.Put(rec)
 		case "sched":
@@ -494,15 +549,21 @@ func cmdSmfGen(args []string) {
 			if i%3 == 2 && len(rec.Bytes) > 1 {
 				rec.Cut = 1 + r.Intn(len(rec.Bytes)-1)
 			}
+			rec.Log = r.Intn(3) == 0
+			useLog = rec.Log
 			runSched(rec)
 			rec.Feat = featList(feat)
 			w.Put(rec)
 		case "wfault":
 			rec := &WFaultRec{ID: i, Judge: *judge, Hist: genHistory(r, false, !*big || i%4 != 0, feat)}
+			rec.Log = r.Intn(3) == 0
+			useLog = rec.Log
 			runWFault(rec)
 			w.Put(rec)
 		case "rfault":
 			rec := &RFaultRec{ID: i, Judge: *judge, Bytes: validFile(r, *big && i%8 == 0, feat)}
+			rec.Log = r.Intn(3) == 0
+			useLog = rec.Log
 			runRFault(rec)
 			w.Put(rec)
 		default:
@@ -610,37 +671,44 @@ func cmdSmfRerun(args []string) {
 		case "wr":
 			var rec WrRec
 			json.Unmarshal(l, &rec)
+			useLog = rec.Log
 			runWr(&rec)
 			w.Put(&rec)
 		case "rd":
 			var rec RdRec
 			json.Unmarshal(l, &rec)
+			useLog = rec.Log
 			runRd(&rec)
 			w.Put(&rec)
 		case "cut":
 			var rec CutRec
 			json.Unmarshal(l, &rec)
 			rec.Full = rec.Full || *full
+			useLog = rec.Log
 			runCut(&rec)
 			w.Put(&rec)
 		case "any":
 			var rec AnyRec
 			json.Unmarshal(l, &rec)
+			useLog = false
 			runAny(&rec)
 			w.Put(&rec)
 		case "sched":
 			var rec SchedRec
 			json.Unmarshal(l, &rec)
+			useLog = rec.Log
 			runSched(&rec)
 			w.Put(&rec)
 		case "wfault":
 			var rec WFaultRec
 			json.Unmarshal(l, &rec)
+			useLog = rec.Log
 			runWFault(&rec)
 			w.Put(&rec)
 		case "rfault":
 			var rec RFaultRec
 			json.Unmarshal(l, &rec)
+			useLog = rec.Log
 			runRFault(&rec)
 			w.Put(&rec)
 		default:
